@@ -99,6 +99,7 @@ def run(rep, tier):
         nullable(rep, meta, sfx)
         trace(rep, meta, sfx)
         trace_entry(rep, meta, sfx)
+        minzero(rep, meta, sfx)
         resolve(rep, meta, sfx)
         wiring(rep, meta, f, sfx)
 
@@ -642,3 +643,34 @@ def wiring(rep, meta, f, sfx):
             if bad:
                 r.violation("entry:" + b["path"], where(opt[0]), "a path reaches optimize() without validate_pairs "
                             "and consume_rules (validate_ast) before it: unvalidated grammars reach the back-ends")
+
+
+# ------------------------------------------------------------------ MINZERO (acceptance half)
+
+def minzero(rep, meta, sfx):
+    r = rep.rule("C06.MINZERO" + sfx, 1,
+                 "a lower bound of zero is legal: the reader rejects a zero count only where the count is an exact or an "
+                 "upper bound (e{0}, e{,0}, e{m,0}); `e{0,}` is `e*` and must be accepted when e begins by consuming a "
+                 "character")
+    PE_ = "pest_meta::parser::ParserExpr"
+    n = 0
+    for fn in meta.bodies:
+        if fn.get("exp") or not fn["path"].startswith("pest_meta::parser::") or "::grammar::" in fn["path"] or fn.get("body") is None:
+            continue
+        ctx = hirq.Ctx(fn)
+        for x in walk(fn["body"]):
+            if kind(x) == "Call" and callee(x) == PE_ + "::RepMin" and len(x["args"]) >= 2:
+                n += 1
+                cnt = hirq.local_id(x["args"][1])
+                r.instance("RepMin", where(x))
+                for g in ctx.guards(x):
+                    cnd = peel(g[1]) if g[0] in ("not", "if") else None
+                    if cnd is None or kind(cnd) != "Binary":
+                        continue
+                    zero_test = cnd["op"] == "==" and hirq.lit_value(cnd["r"]) == 0 and hirq.local_id(cnd["l"]) == cnt
+                    pos_test = cnd["op"] in ("!=", ">") and hirq.lit_value(cnd["r"]) == 0 and hirq.local_id(cnd["l"]) == cnt
+                    if (g[0] == "not" and zero_test) or (g[0] == "if" and g[2] is True and pos_test) or (g[0] == "if" and g[2] is False and zero_test):
+                        r.violation("RepMin", where(cnd), "`e{0,}` is rejected (the zero test that belongs to upper bounds is "
+                                    "applied to the lower bound of e{n,}): a well-formed grammar is refused")
+    if n == 0:
+        r.lost("construction site of ParserExpr::RepMin in the reader")
